@@ -215,7 +215,7 @@ func c18Expect(c *c18Case, sim *c18Sim) *c18Exp {
 		}
 	}
 	// phase 4 (evaluated by the middleware only when the response body is buffered)
-	buffered := cfg.RespAccess && c18MimeIn(sim.CommitHdr.Get("Content-Type"), cfg.Mime)
+	buffered := c18Buffered(cfg, sim.CommitHdr.Get("Content-Type"))
 	if buffered {
 		att := sim.Attempted
 		proc := att
@@ -579,7 +579,7 @@ func c18Judge(w *fw.W, env *c18Env, c *c18Case) {
 		w.Count("harness_bare_status_differs_from_script", 1)
 	}
 	w.Count("passthrough_compared", 1)
-	buffered := c.Cfg.RespAccess && c18MimeIn(sim.CommitHdr.Get("Content-Type"), c.Cfg.Mime)
+	buffered := c18Buffered(c.Cfg, sim.CommitHdr.Get("Content-Type"))
 	if buffered {
 		w.Count("passthrough_response_buffered", 1)
 		if len(sim.Attempted) > c.Cfg.RespLimit {
